@@ -93,7 +93,7 @@ def Sched.finish (s : Sched) (r : Run) (st : St) : Sched × List Ev :=
 /-- consume the START event: the production task starts -/
 def Sched.begin (s : Sched) (ee : EE) (fuel : Nat) : Sched × List Ev :=
   match s.prog.task? startTaskName with
-  | none => ({ s with started := true, st := s.st.setStuck .raised }, [])
+  | none => ({ s with started := true, run := .stuck .raised, st := s.st.setStuck .raised }, [])   -- KeyError (a valid program has a production task)
   | some t =>
     let id := s.st.ctrT
     let c : CallSite := { name := t.name, ins := [], line := t.line }
@@ -114,9 +114,11 @@ def Sched.fire (s : Sched) (ee : EE) (fuel : Nat) (e : Event) : CallResult :=
       else { ret := false, out := [], sched := s }
   | .svcFinished i =>
       if s.valid && s.st.awaited.contains i then
-        let (r, st) := deliver s.prog ee fuel i s.run { s.st with out := [] }
-        let (s', evs) := s.finish r st
-        { ret := true, out := (evs.flatMap (expand s.ls s.observers)) ++ s.observers.map Out.netUpd, sched := s' }
+        match deliver s.prog ee fuel i s.run { s.st with out := [] } with
+        | some (r, st) =>
+          let (s', evs) := s.finish r st
+          { ret := true, out := (evs.flatMap (expand s.ls s.observers)) ++ s.observers.map Out.netUpd, sched := s' }
+        | none => { ret := false, out := [], sched := s }   -- awaited but nowhere waiting: unreachable (theorem)
       else { ret := false, out := [], sched := s }
   | .other => { ret := false, out := [], sched := s }
 
@@ -142,5 +144,39 @@ def Sched.detach (s : Sched) (o : Nat) : Option Sched :=
   if s.observers.contains o then some { s with observers := s.observers.erase o } else none
 
 def Sched.finished (s : Sched) : Bool := s.started && s.run.isFin && s.st.stuck.isNone
+
+end Pfdl
+
+namespace Pfdl
+
+/-- the calls an execution engine / application can make -/
+inductive Op where
+  | start
+  | fire (e : Event)
+  | register (k : Kind) (fn : Nat)
+  | attach (o : Nat)
+  | detach (o : Nat)
+deriving Repr, Inhabited
+
+/-- one API call; `ret` of attach is `true`, of a failing detach (`ValueError`) `false` -/
+def Sched.step (ee : EE) (fuel : Nat) (s : Sched) : Op → CallResult
+  | .start => s.start ee fuel
+  | .fire e => s.fire ee fuel e
+  | .register k fn => s.register k fn
+  | .attach o => { ret := true, out := [], sched := s.attach o }
+  | .detach o => match s.detach o with
+    | some s' => { ret := true, out := [], sched := s' }
+    | none => { ret := false, out := [], sched := s }
+
+/-- state after a history of calls -/
+def Sched.runOps (ee : EE) (fuel : Nat) (s : Sched) : List Op → Sched
+  | [] => s
+  | op :: ops => (s.step ee fuel op).sched.runOps ee fuel ops
+
+/-- a freshly constructed scheduler -/
+def Sched.init (P : Prog) (valid : Bool) : Sched := { prog := P, valid := valid }
+
+/-- services announced and not yet completed -/
+def Sched.outstanding (s : Sched) : List Nat := s.run.waiting
 
 end Pfdl
